@@ -136,7 +136,7 @@ class C10(Prop):
             elif m == 'nan':
                 c['prices'][rng.randrange(n)][1] = None
             elif m == 'buffer':
-                c['param'] = rng.choice([-0.01, 1.01, -1.0, 1.5])
+                c['param'] = rng.choice([-0.01, 1.01, -1.0, 1.5, -1e-9, -1e-12, 1.0 + 1e-9, 1.000001, 1.0 + 2.0 ** -40, -5e-324])
             else:
                 c['weights'] = []
         return c
